@@ -183,6 +183,15 @@ def _int(ip, args, kw):
     if not args:
         return 0
     v = args[0]
+    if isinstance(v, _M().HexOfBytes):
+        base = args[1] if len(args) > 1 else kw.get('base', 10)
+        if base != 16:
+            raise Unsupported("int(hex text) with base != 16")
+        bs = v.b
+        if not ip.st.merge and ip.st.branch(z3.Length(bs.e) == 0, "hex text empty"):
+            ip.raise_(ValueError, "invalid literal for int() with base 16: b''")
+        bv = ip.reg.get_spec('be_value')
+        return _M().call_spec(ip, bv, [bs], {})
     if isinstance(v, SV):
         if v.kind == 'int' and len(args) == 1:
             return v
@@ -855,13 +864,32 @@ def _hexlify(ip, args, kw):
         v = ip.seq_view(v)
     if not has_sym(v):
         return native_call(ip, binascii.hexlify, [v], {})
-    sp = ip.reg.get_spec('hexlify_b')
-    return _M().call_spec(ip, sp, [v], {})
+    return _M().HexOfBytes(lift(v, 'bytes'))
 
 
 @builtin(binascii.unhexlify)
 def _unhexlify(ip, args, kw):
     v = args[0]
+    M = _M()
+    if isinstance(v, M.HexOfBytes):
+        return v.b
+    if isinstance(v, M.HexText):
+        # idiom: unhexlify of the (padded) hex digits of r is the big-endian byte string of r, provided the digit count is even
+        st = ip.st
+        hl = M.hexlen(ip, v.v)
+        total = hl + v.pad
+        if not st.branch(total % 2 == 0, "even number of hex digits"):
+            ip.raise_(binascii.Error, "Odd-length string")
+        bm = ip.reg.get_spec('be_min_bytes')
+        body = lift(M.call_spec(ip, bm, [v.v], {}), 'bytes')
+        st.assume_def(z3.Length(body.e) * 2 == hl + hl % 2)          # hex digits <-> bytes of the minimal encoding
+        extra = simp(total / 2 - z3.Length(body.e))
+        if z3.is_int_value(extra) and extra.as_long() == 0:
+            return body
+        if not st.feasible(extra != 0):
+            return body
+        rep = ip.reg.get_spec('repeat_byte')
+        return SV(simp(z3.Concat(lift(M.call_spec(ip, rep, [0, SV(extra, 'int')], {}), 'bytes').e, body.e)), 'bytes')
     if not has_sym(v):
         return native_call(ip, binascii.unhexlify, [v], {})
     raise Unsupported("unhexlify of symbolic text")
@@ -1157,6 +1185,20 @@ def _sv_method(ip, s, name, args, kw):
         return SV(simp(z3.IndexOf(s.e, lift(args[0], s.kind).e, 0)), 'int')
     if name == 'count':
         raise Unsupported("count on symbolic sequence")
+    if name == 'join' and len(args) == 1:
+        items = ip.iter_values(args[0])
+        out = None
+        for j, it_ in enumerate(items):
+            iv_ = ip.seq_view(it_) if isinstance(it_, Loc) else it_
+            if kind_of(iv_) != s.kind:
+                ip.raise_(TypeError, "sequence item %d: expected a %s-like object" % (j, s.kind))
+            piece = lift(iv_).e
+            out = piece if out is None else z3.Concat(out, s.e, piece)
+        if out is None:
+            return b"" if s.kind == 'bytes' else ""
+        r_ = SV(simp(out), s.kind)
+        ok_, cv_ = concrete_of(r_)
+        return cv_ if ok_ else r_
     if name in ('strip', 'rstrip') and not args:
         pl = _M().seq_peel_last(s.e)
         if pl is not None and z3.is_int_value(pl[1][0]) and pl[1][0].as_long() == 10:
